@@ -22,6 +22,9 @@ Collection-shaped feedback through the wiring layer (ORACLE-ONLY cases: no Coq m
                               structural field = nesting depth 1 or 2); kind 5: INSIDE a map_ body, one child per key (variant as 4)
                               kind 6: feedback of TSB{a,b,c} shape, partial-field writes, two feedbacks (without / with initial value
                               {0,0,0}); kind 7: feedback loop INSIDE a try_except_ child, a node ranked after the sink throws on negative values
+                              kind 8: feedback<TS<tuple<int>>> fed with immutable compact tuples of varying length (the sink's
+                              replace_state(capture_delta) fallback); passive field = 1: declared initial value (1, 2); script op 1 len base;
+                              lines 37 id t n x* (id 1 written, 2 delivered)
   9 1                         (flat cases) run under the REAL-TIME executor with a virtual wall clock (verif_hook.h)
   8 t op key value            kind 4: op 1 x.set(value); kind 5: op 1 d[key] = value (value = key * 100000 + serial);  kind 1: op 1 add key, 2 remove key; kind 2: op 1 set key value, 2 erase key; kind 3: op 1 x.set(value)
   observations: 30 id t na a* nr r* nm m* (TSS tick: added, removed, members; id 1 = written side, 2 = feedback side),
@@ -172,10 +175,14 @@ def _times(rng, start, n):
 
 def gen_wired(rng, tier):
     start = rng.randint(1, 3)
-    kind = rng.choice([1, 1, 2, 3, 3, 4, 5, 5, 6, 6, 7, 7])
+    kind = rng.choice([1, 1, 2, 3, 3, 4, 5, 5, 6, 6, 7, 7, 8, 8])
     n = rng.randint(2, 6 if tier == "quick" else 10)
     times = _times(rng, start, n)
     lines = []
+    if kind == 8:
+        for j, t in enumerate(times):
+            lines.append([8, t, 1, rng.randint(0, 4), 10 * (j + 1)])
+        return [[1, start, times[-1] + rng.randint(1, 4)], [7, 8, rng.choice([0, 1]), 0]] + lines
     if kind == 6:
         # partial-field writes: mostly one field per cycle, different subsets in consecutive writes
         val = 0
@@ -484,7 +491,9 @@ def wired_regressions():
          [8, 7, 1, 0, 7], [8, 8, 1, 1, 80], [8, 10, 1, 2, 100]]
     e = [[1, 1, 31], [7, 7, 0, 0], [8, 1, 1, 0, 11], [8, 2, 1, 0, 12], [8, 3, 1, 0, -13], [8, 6, 1, 0, 15], [8, 7, 1, 0, -16],
          [8, 8, 1, 0, 17], [8, 10, 1, 0, -19], [8, 13, 1, 0, 22]]
-    return [a, b, c, d, e]
+    f = [[1, 1, 20], [7, 8, 1, 0], [8, 1, 1, 1, 10], [8, 2, 1, 2, 11], [8, 4, 1, 1, 13], [8, 6, 1, 3, 15]]
+    g = [[1, 1, 20], [7, 8, 0, 0], [8, 1, 1, 1, 10], [8, 2, 1, 2, 11], [8, 4, 1, 1, 13], [8, 6, 1, 3, 15]]
+    return [a, b, c, d, e, f, g]
 
 
 def enumerate_cases(prop):
@@ -639,7 +648,8 @@ def stats_wired(case, out):
     start, end, kind, passive, structural, W, R, X, G, cycles = _wired_parse(case, out)
     return {"wired_cases": 1, "wired_tss": int(kind == 1), "wired_tsd": int(kind == 2), "wired_tsd_loop": int(kind == 3),
             "wired_passive_structural": int(kind == 3 and passive and structural), "coll_writes": len(W), "coll_deliveries": len(R),
-            "wired_nested_child": int(kind == 4), "wired_map_child": int(kind == 5), "wired_tsb": int(kind == 6),
+            "wired_nested_child": int(kind == 4), "wired_map_child": int(kind == 5), "wired_tsb": int(kind == 6), "wired_tuple": int(kind == 8),
+            "tuple_writes": sum(1 for l in out if l[0] == 37 and l[1] == 1),
             "wired_try_except_child": int(kind == 7), "captured_errors": sum(1 for l in out if l[0] == 36),
             "tsb_partial_writes": sum(1 for l in out if l[0] == 35 and l[1] == 1 and 0 < l[3] + l[6] + l[9] < 3),
             "child_writes": sum(1 for l in out if l[0] == 34 and l[1] == 1), "child_deliveries": sum(1 for l in out if l[0] == 34 and l[1] == 2),
@@ -703,6 +713,20 @@ def oracle_wired(case, out):
     start, end, kind, passive, structural, W, R, X, G, cycles = _wired_parse(case, out)
     if kind == 6:
         return fails + _oracle_tsb(out, start, end, cycles)
+    if kind == 8:
+        Wt = [(l[2], tuple(l[4:])) for l in out if l[0] == 37 and l[1] == 1]
+        Rt = [(l[2], tuple(l[4:])) for l in out if l[0] == 37 and l[1] == 2]
+        expt = ([(start, (1, 2))] if passive and start < end else []) + [(t + 1, v) for (t, v) in Wt if t + 1 < end]
+        if Rt != expt:
+            missing = [e for e in expt if e not in Rt]
+            extra = [e for e in Rt if e not in expt]
+            kindf = "fb_lost" if missing and not extra else ("fb_spurious" if extra and not missing else "fb_delay")
+            fails.append((kindf, "tuple feedback (%s initial value): written %s; expected deliveries %s; observed %s"
+                          % ("with" if passive else "no", Wt[:10], expt[:10], Rt[:10])))
+        for (t, _v) in expt:
+            if t not in cycles:
+                fails.append(("fb_no_cycle", "no cycle at %d for a tuple delivery" % t))
+        return fails
     if kind in (4, 5, 7):
         # one loop instance per key (in a map_ the value carries the key): the shift relation per instance
         keyof = (lambda v: v // 100000) if kind == 5 else (lambda v: 0)
@@ -791,7 +815,7 @@ def nontrivial(case, out):
     if not isinstance(out, list):
         return False
     if is_wired(case):
-        return sum(1 for l in out if l[0] in (30, 31, 34, 35) and l[1] == 2) >= 2
+        return sum(1 for l in out if l[0] in (30, 31, 34, 35, 37) and l[1] == 2) >= 2
     start, end, nodes, scripts = parse_case(case)
     st = streams(case, out)
     return any(len(st.get(s, [])) >= 2 for (_k, _p, s, _c) in pairs_of(nodes))
